@@ -313,6 +313,20 @@ class CallListerVisitor(ast.NodeVisitor):
             self.namespace[node.rest] = Unknown(node)
         self.generic_visit(node)
 
+    def visit_ListComp(self, node):
+        # the targets are bound before the element is evaluated
+        for generator in node.generators:
+            self.visit(generator)
+        self.visit(node.elt)
+
+    visit_SetComp = visit_GeneratorExp = visit_ListComp
+
+    def visit_DictComp(self, node):
+        for generator in node.generators:
+            self.visit(generator)
+        self.visit(node.key)
+        self.visit(node.value)
+
     def visit_Nonlocal(self, node):
         for name in node.names:
             self.namespace.add_nonlocal(name)
